@@ -191,3 +191,34 @@ func TestSelfCheckVectors(t *testing.T) {
 	}
 	t.Logf("%d vectors reproduced", n)
 }
+
+func TestScan(t *testing.T) {
+	tx := sample()
+	for _, ext := range []bool{false, true} {
+		b, fs := EncodeTrace(tx, ext, nil)
+		got := Scan("tx", b)
+		if len(got) != len(fs) {
+			t.Fatalf("ext=%v: %d fields, want %d", ext, len(got), len(fs))
+		}
+		for i := range fs {
+			if got[i] != fs[i] {
+				t.Fatalf("field %d: %+v vs %+v", i, got[i], fs[i])
+			}
+		}
+		// a hostile length is reported although its payload is missing
+		f := fs[1]
+		h := append(append(append([]byte{}, b[:f.Off]...), AppendVarint(nil, 1<<40, 0)...), b[f.Off+f.Width:]...)
+		got = Scan("tx", h)
+		if last := got[len(got)-1]; last.Value != 1<<40 || last.Kind != f.Kind {
+			t.Fatalf("claim not reported: %+v", last)
+		}
+	}
+	l := Scan("list", []byte{0xfe, 1, 2, 3, 4, 9})
+	if len(l) != 1 || l[0].Value != 0x04030201 || l[0].Kind != "list-count" {
+		t.Fatalf("%+v", l)
+	}
+	o := Scan("out", []byte{1, 2, 3, 4, 5, 6, 7, 8, 0xff, 1, 0, 0, 0, 0, 0, 0, 0x80})
+	if len(o) != 1 || o[0].Value != 1|0x80<<56 {
+		t.Fatalf("%+v", o)
+	}
+}
